@@ -333,7 +333,10 @@ package channels
 //@     step(s, DataReceivedProgress, d).Received == (applied(s, DataReceivedProgress, d) ? (s.Received + d) % 18446744073709551616 : s.Received) &&
 //@     step(s, DataSentProgress, d).Sent == (applied(s, DataSentProgress, d) ? (s.Sent + d) % 18446744073709551616 : s.Sent) &&
 //@     step(s, DataQueuedProgress, d).Queued == (applied(s, DataQueuedProgress, d) ? (s.Queued + d) % 18446744073709551616 : s.Queued)
-//@ lemma [progress-only-while-transferring] {C07}: foreach E in (DataReceivedProgress, DataSentProgress, DataQueuedProgress) :: forall s State ::
+//@ lemma [progress-counted-while-transferring] {C07,C01}: foreach E in (DataReceivedProgress, DataSentProgress, DataQueuedProgress, DataReceived, DataSent, DataQueued) ::
+//@     foreach S in statuses(Ongoing, ResponderCompleted, ResponderFinalizing, AwaitingAcceptance) :: forall s State :: s.Status == S ==> applied(s, E)
+//@     -- data may still be flowing in each of these statuses (the responder's paused Complete can overtake the last blocks): every block report is recorded there
+//@ lemma [progress-only-while-transferring] {C07,C01}: foreach E in (DataReceivedProgress, DataSentProgress, DataQueuedProgress) :: forall s State ::
 //@     applied(s, E) ==> (s.Status == datatransfer.Ongoing || s.Status == datatransfer.ResponderCompleted ||
 //@         s.Status == datatransfer.ResponderFinalizing || s.Status == datatransfer.AwaitingAcceptance)
 //@ lemma [counters-touched-only-by-their-event] {C07}: foreach E in (*) :: forall s State ::
